@@ -308,7 +308,8 @@ class C09(Check):
                 created[s] = True
                 continue
             M = model[s]
-            if spec["fill"] and ret != 0 and k != "pu":
+            if (spec["fill"] or ret in (2133571400, 28)) and ret != 0 and k != "pu":
+                # (2133571400 = EXT2_ET_BLOCK_ALLOC_FAIL, 28 = ENOSPC: the small filesystem ran out of blocks by itself)
                 # nearly full: allocation is deferred to the flush of the handle's buffer, so a failure surfaces at a
                 # later operation and the bytes of the unflushed block are gone.  The failure was reported; what the
                 # file holds afterwards is not defined by the statement.
